@@ -230,6 +230,7 @@ pub fn run(cases: &[Value], trace: &mut Trace, seed: u64) {
         let mut rng = Rng::new(seed ^ (k as u64).wrapping_mul(0x0bad_cafe));
         let watch = FdWatch::start();
         let (gsock, psock) = UnixStream::pair().unwrap();
+        let gdup = gsock.try_clone().unwrap();
         let g = GpuBackend::from_stream(gsock);
         trace.emit(json!({"ev": "reset", "id": case["id"]}));
         for step in case["steps"].as_array().unwrap() {
@@ -241,7 +242,10 @@ pub fn run(cases: &[Value], trace: &mut Trace, seed: u64) {
             let g2 = g.clone();
             let op2 = op.clone();
             let mut rng2 = Rng::new(rng.next());
+            let call_tid = std::sync::Arc::new(std::sync::atomic::AtomicI32::new(0));
+            let ct2 = call_tid.clone();
             let t = std::thread::spawn(move || {
+                ct2.store(gettid(), std::sync::atomic::Ordering::SeqCst);
                 let r = std::panic::catch_unwind(std::panic::AssertUnwindSafe(|| gpu_call(&g2, &op2, dlen, with_fd, &mut rng2)));
                 let _ = tx.send(r.ok());
             });
@@ -314,7 +318,9 @@ pub fn run(cases: &[Value], trace: &mut Trace, seed: u64) {
                 if done {
                     break;
                 }
-                if t0.elapsed() > Duration::from_millis(2000) {
+                if t0.elapsed() > Duration::from_millis(2000)
+                    && hang_confirmed(t0, &[call_tid.load(std::sync::atomic::Ordering::SeqCst)], &[std::os::unix::io::AsRawFd::as_raw_fd(&gdup)])
+                {
                     hang = true;
                     let _ = psock.shutdown(std::net::Shutdown::Both);
                     out = rx.recv_timeout(Duration::from_millis(5000)).ok().flatten();
@@ -354,6 +360,7 @@ pub fn run(cases: &[Value], trace: &mut Trace, seed: u64) {
                 break;
             }
         }
+        drop(gdup);
         drop(g);
         drop(psock);
         trace.emit(watch.finish());
